@@ -6,6 +6,9 @@ HERE = os.path.dirname(os.path.abspath(__file__))
 props = [json.loads(l) for l in open(os.path.join(HERE, "properties.jsonl"))]
 claims = json.load(open(os.path.join(HERE, "claims.json")))
 CLAIMED = claims["claimed"]          # id -> {text, note, ref}
+import glob
+for fn in sorted(glob.glob(os.path.join(HERE, "claims.d", "*.json"))):
+    CLAIMED[os.path.basename(fn)[:-5]] = json.load(open(fn))
 NA_REASON = claims["not_applicable"]  # id -> reason
 DEFAULT_NA = claims["default_not_applicable"]
 
